@@ -5,10 +5,11 @@ C07.b  a validity violation is never fatal: XMLValid's severity functions folded
 C07.c  content-model dispatch over ContentSpecNode::NodeTypes / ModelTypes (DISPATCH)
 """
 import os
+import re
 
 from .. import core, sxeval
 from ..core import AnalysisBroken
-from ..engines import diag, dispatch
+from ..engines import diag, dispatch, guard
 
 
 def severity_rule(rep):
@@ -206,6 +207,49 @@ def token_list_rule(rep):
            "notations: the last name of a NOTATION list is never checked" % bad, "src/xercesc/validators/DTD/DTDValidator.cpp")
 
 
+ATTR_VALIDATION_FNS = [("DGXMLScanner::scanStartTag", "src/xercesc/internal/DGXMLScanner.cpp"),
+                       ("DGXMLScanner::scanStartTagNS", "src/xercesc/internal/DGXMLScanner.cpp"),
+                       ("DGXMLScanner::buildAttList", "src/xercesc/internal/DGXMLScanner.cpp"),
+                       ("IGXMLScanner::scanStartTag", "src/xercesc/internal/IGXMLScanner.cpp"),
+                       ("IGXMLScanner::buildAttList", "src/xercesc/internal/IGXMLScanner2.cpp")]
+# the one site that is meaningless for a DTD: attribute wildcards exist only in schema grammars
+ATTR_VALIDATION_SCHEMA_ONLY = "attDefForWildCard"
+
+
+def attr_value_validated_rule(rep):
+    rep.rule("C07.f", "with validation on and a DTD grammar, every attribute value the DTD-aware scanners produce — given in the "
+             "start tag or faulted in from a default — is handed to the validator (VC: Attribute Value Type and the ID/IDREF/ENTITY/"
+             "NOTATION bookkeeping that hangs off it): each validateAttrValue call site of DGXMLScanner / IGXMLScanner start-tag "
+             "handling stays reachable under fValidate with the grammar type DTD; a site fenced off by a grammar-type test silently "
+             "stops validating that class of values")
+    P = lambda c: isinstance(c[1], str) and c[1].endswith("::validateAttrValue")
+
+    def assume(x):
+        if x[0] == "f" and x[1].endswith("::fValidate"):
+            return True
+        if x[0] == "b" and x[1] in ("==", "!=") and any(isinstance(y, list) and y[0] == "f" and y[1].endswith("::fGrammarType") for y in (x[2], x[3])):
+            e = [y for y in (x[2], x[3]) if isinstance(y, list) and y[0] == "e"]
+            if e:
+                is_dtd = e[0][1].endswith("DTDGrammarType")
+                return is_dtd if x[1] == "==" else (not is_dtd)
+        return None
+    n = 0
+    for q, fl in ATTR_VALIDATION_FNS:
+        g = core.run_xa([os.path.join(core.REPO, fl)], cfg="^" + re.escape(q) + "$", flat=False)
+        cfg = guard.Cfg(g.cfg(q))
+        live = {(b, i) for b, i, el in guard.reachable_sites(cfg, P, assume)}
+        for b, i, el in guard.sites(cfg, P):
+            calls = [c for c in guard.el_top_calls(el) if P(c)]
+            if calls and calls[0][3] and calls[0][3][0] == ["l", ATTR_VALIDATION_SCHEMA_ONLY]:
+                continue
+            n += 1
+            ok = (b, i) in live
+            rep.ob("C07.f", "%s@validateAttrValue:%s" % (q, el.get("l")), ok, "reached when validating against a DTD" if ok else
+                   "%s: the validateAttrValue call at line %s cannot be reached with fValidate set and a DTD grammar — these attribute "
+                   "values are no longer validated against their declared type" % (q, el.get("l")), "%s:%s" % (fl, el.get("l", 0)))
+    rep.floor("C07.f", n, 7)
+
+
 def run(rep):
     f = core.library_facts()
     rep.units.update(os.path.relpath(t, core.REPO) for t in f.tus)
@@ -213,6 +257,7 @@ def run(rep):
     glushkov_rule(rep)
     cdata_content_rule(rep)
     token_list_rule(rep)
+    attr_value_validated_rule(rep)
     diag.run(rep, f, "C07")
     dispatch.run(rep, f, "C07")
     rep.undecided += ["that the automaton built from a content model accepts exactly the declared language (DFA construction, nullability, "
